@@ -46,13 +46,10 @@ theorem quit_ok (a : Args) (wf : Option WPoint) (rs : List Bytes) (w pre app txt
     (hrs : ∀ x ∈ rs, RcptOK x) (hp : NUL ∉ pre) (hne : pre ≠ []) (hk : isKZD (headB pre) = true) (ha : NUL ∉ app) :
     ResOK (quitWith a wf rs w pre app txt) := by
   unfold quitWith
-  by_cases h : wf = some .quit
-  · simp only [h, if_true]; exact lost_ok a rs w false false hh hrs
-  · simp only [h, if_false]
-    refine ⟨hrs, ?_, ?_⟩
-    · simp only [List.mem_append, not_or]
-      exact ⟨⟨⟨⟨hp, hh⟩, ha⟩, by decide⟩, said_nulfree txt⟩
-    · simp only [List.append_assoc]; rw [headB_append _ _ hne]; exact hk
+  refine ⟨hrs, ?_, ?_⟩
+  · simp only [List.mem_append, not_or]
+    exact ⟨⟨⟨⟨hp, hh⟩, ha⟩, by decide⟩, said_nulfree txt⟩
+  · simp only [List.append_assoc]; rw [headB_append _ _ hne]; exact hk
 
 theorem rcptRep_ok (a : Args) (c : Byte) (hc : c = lH ∨ c = lS) (txt : Bytes) (hh : NUL ∉ a.host) :
     RcptOK ([c] ++ a.host ++ notLike ++ said txt) := by
@@ -222,10 +219,7 @@ theorem end_to_end (a : Args) (sc : Script) (hh : NUL ∉ a.host)
     (hK : headB (rreport 0 (render (smtpRun a sc))) = cK) :
     (expect (abstr a sc)).v = .K ∧ (expect (abstr a sc)).rl.head? = some lR := by
   have hok : ResOK (smtpRun a sc) := run_ok a sc.wfail hh _
-  have good : (obsOf (smtpRun a sc)).rl = (expect (abstr a sc)).rl ∧
-      (verdictOK (expect (abstr a sc)).v (obsOf (smtpRun a sc)) = true ∨
-       (sc.wfail = some .quit ∧ (expect (abstr a sc)).v.decided = true ∧ (smtpRun a sc).msg = droppedRep a.host false)) :=
-    run_all a sc.wfail _
+  have good : Good (expect (abstr a sc)) (smtpRun a sc) := run_good a sc.wfail _
   generalize smtpRun a sc = res at hok good hK
   have hs := Nq.Lemmas.Rspawn.rspawnSound_rreport 0 (render res)
   unfold rspawnSound at hs
@@ -240,11 +234,7 @@ theorem end_to_end (a : Args) (sc : Script) (hh : NUL ∉ a.host)
   rw [hrec, firstKZD_rcpts _ _ hok.1 hok.2.2] at hf
   have hml : (obsOf res).ml = cK := by simpa [obsOf] using hf
   have hv : (expect (abstr a sc)).v = .K := by
-    have h1 : verdictOK (expect (abstr a sc)).v (obsOf res) = true := by
-      rcases good.2 with h | ⟨_, _, h3⟩
-      · exact h
-      · have : (obsOf res).ml = cZ := by simp [obsOf, h3, headB_dropped]
-        rw [this] at hml; exact absurd hml (by decide)
+    have h1 : verdictOK (expect (abstr a sc)).v (obsOf res) = true := good.1
     cases hv : (expect (abstr a sc)).v with
     | K => rfl
     | Z => rw [hv] at h1; simp [verdictOK, hml, cK, cZ, cD] at h1
@@ -252,7 +242,7 @@ theorem end_to_end (a : Args) (sc : Script) (hh : NUL ∉ a.host)
     | lost c => rw [hv] at h1; simp [verdictOK, hml, cK, cZ, cD] at h1
   refine ⟨hv, ?_⟩
   obtain ⟨_, _, _, _, a5, ⟨c, hc, _⟩, _⟩ := expect_K _ hv
-  have hrl : (obsOf res).rl = (expect (abstr a sc)).rl := good.1
+  have hrl : (obsOf res).rl = (expect (abstr a sc)).rl := good.2.1
   rw [← hrl]
   have hne : (obsOf res).rl ≠ [] := by
     rw [hrl, a5]; intro e; rw [List.map_eq_nil_iff.mp e] at hc; simp at hc
